@@ -253,10 +253,10 @@ Proof. unfold valid_b, Valid. rewrite !andb_true_iff, wf_b_spec. tauto. Qed.
 
 Lemma holds_outcome_sound_l i o s :
   holds_outcome i o s = true -> o <> Crash 97 ->
-  (Valid i -> exists ps n, o = Accept ps /\ nsamples i = Some n /\ 10 * n <= ps /\ v_popsize i <= ps /\
-                           s = Completed (2 * n)) /\
+  (Valid i -> exists ps n h, o = Accept ps /\ nsamples i = Some n /\ 10 * n <= ps /\
+                             s = Completed h /\ 0 < h) /\
   (~ Valid i -> side_ok_b i = true -> violated i <> [] ->
-   exists k, o = Reject k /\ In (clause_of k) (violated i)).
+   exists k, o = Reject k /\ (k = 0 \/ In (clause_of k) (violated i))).
 Proof.
   intros H HU. unfold holds_outcome in H.
   assert (HUO : unobserved o = false).
@@ -265,12 +265,13 @@ Proof.
   clear H. split.
   - intros HV. apply valid_b_spec in HV. rewrite HV in H'.
     destruct o as [ps| |]; try discriminate. destruct (nsamples i) as [n|]; [|discriminate].
-    apply andb_true_iff in H'. destruct H' as [H1 H3]. apply andb_true_iff in H1. destruct H1 as [H1 H2].
-    destruct s as [h| |]; try discriminate. apply Z.eqb_eq in H3. subst.
-    exists ps, n. apply Z.leb_le in H1. apply Z.leb_le in H2. auto.
+    apply andb_true_iff in H'. destruct H' as [H1 H3].
+    destruct s as [h| |]; try discriminate. apply Z.ltb_lt in H3.
+    exists ps, n, h. apply Z.leb_le in H1. auto.
   - intros HNV HS HVI. destruct (valid_b i) eqn:VB; [apply valid_b_spec in VB; contradiction|].
     rewrite HS in H'. destruct (violated i) as [|c r] eqn:EV; [congruence|]. cbn [hd_error is_none negb andb] in H'.
     destruct o as [|k|]; try discriminate. exists k. split; [reflexivity|].
+    apply orb_true_iff in H'. destruct H' as [H'|H']; [left; apply Z.eqb_eq; exact H'|right].
     apply existsb_exists in H'. destruct H' as (x & Hx & Hx2). apply Z.eqb_eq in Hx2. subst. exact Hx.
 Qed.
 
@@ -294,4 +295,55 @@ Proof.
   destruct (split_on _ (x :: r')) as [|c [|a0 [|b0 rest]]]; try discriminate.
   destruct (parse_int a0) as [s|]; [|discriminate]. destruct (parse_int b0) as [e|]; [|discriminate].
   intros H; inversion H; subst. cbn. eauto.
+Qed.
+
+(* ------------------------------------------------------------ the region cut *)
+(* With start <= end the region loop of _prepare_coords always keeps at least one
+   marker of a non-empty map (sorted or not): the "marker left" part of requirement 8
+   follows from requirement 12. *)
+Lemma cut_scan_inv s e len : s <= e -> forall ms ind si,
+  0 <= ind -> ind + lenZ ms = len -> (si = -1 \/ 0 <= si < ind) ->
+  let '(si', ei') := cut_scan ms ind si s e len in
+  ei' <= len /\ ((si' = -1 /\ ei' = len) \/ 0 <= si' < ei').
+Proof.
+  intros Hse. induction ms as [|m r IH]; intros ind si Hind Hlen Hsi; cbn [cut_scan].
+  - unfold lenZ in Hlen. cbn in Hlen. split; [lia|]. destruct Hsi as [->|Hsi]; [left; split; [reflexivity|lia]|right; lia].
+  - rewrite lenZ_cons in Hlen. assert (0 <= lenZ r) by (unfold lenZ; lia).
+    destruct (e <=? snd m) eqn:E.
+    + apply Z.leb_le in E. split; [lia|]. right.
+      destruct ((s <=? snd m) && (si <? 0)) eqn:C.
+      * lia.
+      * destruct Hsi as [->|Hsi]; [|lia]. exfalso. apply andb_false_iff in C. destruct C as [C|C].
+        -- apply Z.leb_gt in C. lia.
+        -- apply Z.ltb_ge in C. lia.
+    + specialize (IH (ind + 1) (if (s <=? snd m) && (si <? 0) then ind else si)).
+      apply IH; [lia|lia|].
+      destruct ((s <=? snd m) && (si <? 0)); [right; lia|]. destruct Hsi as [->|Hsi]; [left; reflexivity|right; lia].
+Qed.
+
+Lemma skipn_nonempty {A} (l : list A) k : (k < length l)%nat -> skipn k l <> [].
+Proof.
+  revert l. induction k as [|k IH]; intros [|a l] H; cbn in *; try lia; [discriminate|]. apply IH. lia.
+Qed.
+
+Lemma firstn_nonempty {A} (l : list A) k : l <> [] -> (0 < k)%nat -> firstn k l <> [].
+Proof. destruct l; [congruence|]. destruct k; [lia|]. cbn. discriminate. Qed.
+
+Lemma region_cut_nonempty_l ms s e : ms <> [] -> s <= e -> region_cut ms s e <> [].
+Proof.
+  intros Hne Hse. unfold region_cut.
+  pose proof (cut_scan_inv s e (lenZ ms) Hse ms 0 (-1)) as H.
+  destruct (cut_scan ms 0 (-1) s e (lenZ ms)) as [si ei].
+  assert (Hn : 0 < lenZ ms).
+  { unfold lenZ. destruct ms; [congruence|]. cbn [length]. lia. }
+  destruct H as [Hle H]; [lia|lia|left; reflexivity|].
+  unfold pyslice. destruct H as [[-> ->]|H].
+  - replace (-1 <? 0) with true by reflexivity.
+    replace (lenZ ms <? 0) with false by (symmetry; apply Z.ltb_ge; lia).
+    rewrite Z.max_l by lia. rewrite Z.min_id.
+    apply firstn_nonempty; [|lia]. apply skipn_nonempty. unfold lenZ in *. lia.
+  - replace (si <? 0) with false by (symmetry; apply Z.ltb_ge; lia).
+    replace (ei <? 0) with false by (symmetry; apply Z.ltb_ge; lia).
+    rewrite (Z.min_l si) by lia. rewrite (Z.min_l ei) by lia.
+    apply firstn_nonempty; [|lia]. apply skipn_nonempty. unfold lenZ in *. lia.
 Qed.
